@@ -169,7 +169,19 @@ theorem range_get_of_lt (r : PyRange) (i : Nat) (h : i < r.len) :
 
 theorem baGet_of_bounds {β} (ys : List β) (p : Int) (h0 : 0 ≤ p) (h1 : p < ys.length) :
     baGet ys p = ys[p.toNat]? := by
-  simp [baGet, h0, h1]
+  have : ¬ p < 0 := by omega
+  simp [baGet, h0, h1, this]
+
+/-- **integer indices of a mapped sequence behave like list indices**, negative ones included: the same element, or
+    IndexError in exactly the same cases -/
+theorem index_value {β} (ys : List β) (p : Int) : baGet ys p = listGet ys p := by
+  simp only [baGet, listGet]
+  generalize hq : (if p < 0 then p + (ys.length : Int) else p) = q
+  by_cases h2 : 0 ≤ q ∧ q < (ys.length : Int)
+  · have h3 : ¬ (q < 0 ∨ q ≥ (ys.length : Int)) := by omega
+    rw [if_pos h2, if_neg h3]
+  · have h3 : (q < 0 ∨ q ≥ (ys.length : Int)) := by omega
+    rw [if_neg h2, if_pos h3]
 
 /-- `value(map(m, xs)[sl]) = [m(x) for x in xs][sl]` for every Python slice (any start/stop/step,
     negative or out of range): evaluating the slice object of jug element by element
